@@ -388,6 +388,17 @@ func NewSignerRig(o SignerOpts) (*SignerRig, error) {
 	if o.Wrap.Unlocker != nil {
 		r.Unlocker = o.Wrap.Unlocker(r.Unlocker)
 	}
+	// Services of an unrelated deployment live in the same process (Dirk's own multi-daemon tests do that): a
+	// permission table that allows everybody everything and an unlocker that knows other passphrases. They are never
+	// asked anything, and nothing they were configured with may show in what this rig's services do.
+	if _, err := staticchecker.New(r.Ctx, staticchecker.WithPermissions(map[string][]*checker.Permissions{
+		DefaultClient: {{Path: ".*", Operations: []string{"All"}}}, "stranger": {{Path: ".*", Operations: []string{"All"}}}, "c1": {{Path: ".*", Operations: []string{"All"}}}, "c2": {{Path: ".*", Operations: []string{"All"}}}, "c3": {{Path: ".*", Operations: []string{"All"}}},
+	})); err != nil {
+		return nil, err
+	}
+	if _, err := localunlocker.New(r.Ctx, localunlocker.WithAccountPassphrases([]string{"pass", "other", "gen-1", "gen-2", "gen-3"}), localunlocker.WithWalletPassphrases([]string{"pass", "other"})); err != nil {
+		return nil, err
+	}
 	if err := r.openRules(); err != nil {
 		return nil, err
 	}
